@@ -191,8 +191,10 @@ def slowLastM (serial : Nat) : Nat → Option Page → FileM (Option Page)
         if p.last then pure best' else slowLastM serial fuel best'
       else slowLastM serial fuel best
 
-def findLastM (serial : Nat) : FileM (Option Page) := do
-  seekEndBy 65536
+/-- `find_last` with the size of the window at the end of the file as a parameter (as `findLastW` of
+Model/Info/OggCommon.lean: proofs about a variable window do not unfold the literal 65536) -/
+def findLastMW (w : Nat) (serial : Nat) : FileM (Option Page) := do
+  seekEndBy (w : Int)
   let data ← freadAll
   match Info.OggC.rindex Info.OggC.oggS data with
   | none => raise .mutagen                    -- "unable to find final Ogg header"
@@ -205,6 +207,9 @@ def findLastM (serial : Nat) : FileM (Option Page) := do
         if p.last then pure (some p) else slow (some p)
       else slow none
     | none => slow none
+
+/-- `OggPage.find_last(fileobj, serial, finishing=True)`: the window is `256 * 256` bytes -/
+def findLastM (serial : Nat) : FileM (Option Page) := findLastMW 65536 serial
 
 /-- `info._post_tags(fileobj)`: the page the length is computed from (`none`: not looked for) -/
 def postM (serial : Nat) (needLast : Bool) : FileM (Option Page) :=
@@ -258,8 +263,8 @@ def slowLastP (f : Bytes) (serial : Nat) : Nat → Nat → Option Page → Excep
         if p.last then .ok best' else slowLastP f serial fuel next best'
       else slowLastP f serial fuel next best
 
-def findLastP (f : Bytes) (serial : Nat) : Except PyErr (Option Page) :=
-  let data := f.drop (f.length - 65536)
+def findLastPW (w : Nat) (f : Bytes) (serial : Nat) : Except PyErr (Option Page) :=
+  let data := f.drop (f.length - w)
   match Info.OggC.rindex Info.OggC.oggS data with
   | none => .error .mutagen
   | some index =>
@@ -269,6 +274,8 @@ def findLastP (f : Bytes) (serial : Nat) : Except PyErr (Option Page) :=
         if p.last then .ok (some p) else slowLastP f serial (f.length + 1) 0 (some p)
       else slowLastP f serial (f.length + 1) 0 none
     | none => slowLastP f serial (f.length + 1) 0 none
+
+def findLastP (f : Bytes) (serial : Nat) : Except PyErr (Option Page) := findLastPW 65536 f serial
 
 /-- the identification page and the position behind it -/
 def infoP (c : Codec) (f : Bytes) : Except PyErr (Page × Bool × Nat) :=
